@@ -903,6 +903,55 @@ func c03BinCodec(c *core.Ctx) {
 		encs[core.FuncName(cv.fn)] = enc
 		c.Check(g, key, b64.Pos(), "base64 "+want+" exactly for keys with the -bin suffix ("+enc+")", "base64 coding is not tied to the '-bin' key suffix")
 	}
+	// decoding is the converter's job: no consumer of a wire→MD converter rewrites the values of the result, so
+	// that every consumer of the same wire data (Trailer(), the Trailer call option, Header(), …) sees the same
+	nUse := 0
+	for _, cv := range convs {
+		if cv.dir != "decode" {
+			continue
+		}
+		for _, caller := range p.LibFuncs("httpgrpc") {
+			for _, call := range core.CallsIn(caller, func(_ *ssa.Call, ci core.CallInfo) bool { return ci.Static == cv.fn }) {
+				nUse++
+				key := core.FuncName(caller) + ":" + cv.fn.Name() + ":result-not-rewritten"
+				var res ssa.Value = call
+				if cv.fn.Signature.Results().Len() > 1 {
+					res = nil
+					for _, r := range core.Refs(call) {
+						if ex, ok := r.(*ssa.Extract); ok && ex.Index == 0 {
+							res = ex
+						}
+					}
+				}
+				rewritten := false
+				if res != nil {
+					var walk func(v ssa.Value, d int)
+					walk = func(v ssa.Value, d int) {
+						if d > 3 {
+							return
+						}
+						for _, r := range core.Refs(v) {
+							switch x := r.(type) {
+							case *ssa.MapUpdate:
+								if x.Map == v {
+									rewritten = true
+								}
+							case *ssa.Phi:
+								walk(x, d+1)
+							case *ssa.ChangeType:
+								walk(x, d+1)
+							}
+						}
+					}
+					walk(res, 0)
+				}
+				c.Check(!rewritten, key, call.Pos(), "the converter's result is used as it is", "the caller rewrites entries of the converter's result: this consumer decodes or alters values that the other consumers of the same wire data (e.g. the Trailer call option vs. Trailer()) report as they came")
+			}
+		}
+	}
+	if nUse < 4 {
+		c.Fail("httpgrpc:converter-uses", token.NoPos, "ANCHOR-MISSING: expected >= 4 uses of the wire→MD converters in httpgrpc, found %d", nUse)
+	}
 	// one encoding everywhere
 	vals := map[string]bool{}
 	for _, e := range encs {
